@@ -76,7 +76,8 @@ def expmv(f, v, t=1., tol=1e-12, ncv=10, hermitian=False, normalize=False, retur
             Further parameters that are passed to :func:`expand_krylov_space` and :func:`add`.
     """
     backend = v.config.backend
-    ncv, ncv_max = max(1, ncv), min([30, v.size])  # Krylov space parameters
+    # Krylov space parameters; v.size is not a bound on the space: f may fill blocks that v does not store (a space exhausted earlier ends in a happy breakdown)
+    ncv, ncv_max = max(1, ncv), 30
     t_now, t_out = 0, abs(t)
     sgn = t / t_out if t_out > 0 else 0
     tau = t_out  # initial quess for a time-step
